@@ -468,7 +468,13 @@ def c13_macros(ctx):
     c10_3(ctx)
 
 
-RULES = [c13_1, c13_dispatch, c13_2, c13_3, c13_4, c13_5, c13_6, c13_7, c13_8, c13_macros]
+def c13_state(ctx):
+    """Nothing is remembered between statements / files beyond the reviewed state (rules/shared.py STATE)."""
+    from rules.shared import state_discipline
+    state_discipline(ctx, ('bespokeasm.assembler.model', 'bespokeasm.assembler.bytecode.generator'))
+
+
+RULES = [c13_1, c13_dispatch, c13_2, c13_3, c13_4, c13_5, c13_6, c13_7, c13_8, c13_macros, c13_state]
 
 _GI = 'assembler/bytecode/generator/instruction.py'
 _OPF = 'assembler/model/operand_parser.py'
